@@ -214,6 +214,78 @@ def decode_line(m, mk):
     return 'decode %s %s %s' % (m['name'], mk['image'], ' '.join(args))
 
 
+def constexpr_check(chk, run, max_cases=6, compilers=(('g++', 'c++20'), ('clang++-14', 'c++20'))):
+    """Constant evaluation (C++20): for a few generated schemas, a translation unit of static_asserts decodes a
+    constexpr image through the generated accessors inside constant expressions; expected values come from the
+    Lean specification.  Compiled with -fsyntax-only: a wrong value or UB in constant evaluation is a compile
+    error."""
+    import re as _re
+    bo_of = {c.idx: c.layout['byteOrder'] for c in run.cases}
+    n = 0
+    for c in run.cases[:max_cases]:
+        pkg = c.s['package']
+        src = ['#include <%s/%s.hpp>' % (pkg, pkg), '#include "ce_check.hpp"', '']
+        reqs = []
+        for m in c.layout['messages']:
+            if not wire.fits(m) or not wire.std_data_headers(m):
+                continue
+            rng = random.Random(hash((chk.seed, c.idx, m['name'], 'ce')) & 0xffffffff)
+            v = wire.gen_message_value(rng, bo_of[c.idx], m, c.s['id'], c.s['version'], ext_ok=run.ext)
+            reqs.append((m, 'decode (req %s (msg %s) (value %s))' % (c.sexp, m['name'], wire.mval_sexp(v))))
+        if not reqs:
+            continue
+        outs = run.model_lines([r[1] for r in reqs])
+        nasserts = 0
+        for (m, _), o in zip(reqs, outs):
+            mk = kvs(o)
+            if 'spec' not in mk:
+                continue
+            img = mk['image']
+            name = m['name']
+            cls = '::%s::messages::%s' % (pkg, name)
+            src.append('namespace ns_%s {' % name)
+            src.append('constexpr std::array<char, %d> img{%s};' % (max(1, len(img) // 2), ', '.join(
+                'static_cast<char>(0x%s)' % img[i:i + 2] for i in range(0, len(img), 2)) or '0'))
+            src.append('constexpr auto m = sbepp::make_const_view<%s>(img.data(), %d);' % (cls, len(img) // 2))
+            spec = dict(x.split('=', 1) for x in mk['spec'].split(';') if '=' in x and not x.startswith('h.'))
+            for lf in m['level']['leaves']:
+                key = '.'.join(lf['path'])
+                if lf['kind'] == 'array' or key not in spec:
+                    continue
+                src.append('static_assert(ce::bits(%s) == UINT64_C(0x%s), "%s");' % (
+                    wire.cpp_path('m', lf['path']), spec[key], key))
+                nasserts += 1
+            for g in m['level']['groups']:
+                mm = _re.match(r'n=(\d+),sz=(\d+)', spec.get(g['name'] + ':n', '').join(['n=', '']) if False else '')
+                gkey = [x for x in mk['spec'].split(';') if x.startswith(g['name'] + ':n=')]
+                if gkey:
+                    cnt, sz = _re.match(r'.*:n=(\d+),sz=(\d+)', gkey[0]).groups()
+                    src.append('static_assert(m.%s().size() == %s, "count");' % (g['name'], cnt))
+                    src.append('static_assert(sbepp::size_bytes(m.%s()) == %s, "group size");' % (g['name'], sz))
+                    nasserts += 2
+            size = mk['spec'].rsplit('size=', 1)[-1]
+            src.append('static_assert(sbepp::size_bytes(m) == %s, "message size");' % size)
+            nasserts += 1
+            src.append('}')
+        path = os.path.join(c.dir, 'ce.cpp')
+        open(path, 'w').write('\n'.join(src) + '\n')
+        for cxx, std in compilers:
+            rc, log = core.sh([cxx, '-std=' + std, '-fsyntax-only', '-w', '-I' + os.path.join(c.dir, 'gen'),
+                               '-I' + os.path.join(core.REPO, 'sbepp/src'), '-I' + os.path.join(core.VERIF, 'harness'),
+                               path], timeout=600)
+            n += nasserts
+            chk.cov['evaluations'] += nasserts
+            if rc != 0:
+                chk.report_failure({'kind': 'impl≠spec', 'what': 'constant evaluation: a static_assert over the generated '
+                                    'accessors failed or was not a constant expression',
+                                    'config': {'cxx': cxx, 'std': std}, 'schema_xml': open(c.xml).read(),
+                                    'tu': open(path).read()[:6000], 'compiler_output': log[-2500:],
+                                    'case': {'what': 'constexpr-decode', 'cxx': cxx, 'std': std,
+                                             'first_error': first_error(log)}})
+    chk.cov['constexpr_static_asserts'] = n
+    return n
+
+
 def first_diff(a, b):
     xa, xb = a.split(';'), b.split(';')
     for i, (x, y) in enumerate(zip(xa, xb)):
@@ -296,5 +368,5 @@ def finish_cov(chk, run, rule):
 
 def configs_for(tier, quick=(('g++', 'c++17'), ('clang++-14', 'c++11'))):
     if tier == 'thorough':
-        return [(c, s) for c in ('g++', 'clang++-14') for s in ('c++11', 'c++14', 'c++17', 'c++20')]
+        return [(c, s) for c in ('g++', 'clang++-14') for s in ('c++11', 'c++14', 'c++17', 'c++20', 'c++2b')]
     return list(quick)
